@@ -98,13 +98,19 @@ def Path.oid (p : Path) : Oid := p.dir ++ p.file
 
 def dirs : List String := ["u1", "u2", "bb", "root", "odd"]
 def files : List String := ["a", "b", "c"]
+/-- the inheriting blueprint of the harness mudlib: /c20/u1/i.c is nothing but `inherit "/c20/u2/a";` -/
+def inhChild : Path := ⟨"u1", "i"⟩
+def inhParent : Path := ⟨"u2", "a"⟩
+/-- the blueprint a file inherits (its program must be loaded before the file compiles) -/
+def Path.parent (p : Path) : Option Path := if p = inhChild then some inhParent else none
+
 /-- the source files present in harness/mudlib/c20 -/
-def Path.exists (p : Path) : Bool := dirs.contains p.dir && files.contains p.file
+def Path.exists (p : Path) : Bool := (dirs.contains p.dir && files.contains p.file) || decide (p = inhChild)
 
 def masterOid : Oid := "m"
 def simulOid : Oid := "se"
 /-- object ids a clone may not take: the master's, the simul_efun object's and the blueprints' own ids -/
-def reservedOids : List Oid := masterOid :: simulOid :: dirs.flatMap (fun d => files.map (fun f => d ++ f))
+def reservedOids : List Oid := masterOid :: simulOid :: "u1i" :: dirs.flatMap (fun d => files.map (fun f => d ++ f))
 
 structure Obj where
   oid : Oid
@@ -151,9 +157,12 @@ structure Policy where
   /-- what master::get_root_uid() answers now, when it no longer is the name of the first load (`none`: still `cfg.root`);
       get_bb_uid() may change as well - set_master ignores it after the first load, so the model has nothing for it -/
   root : Nat → Option Name := fun _ => none
+  /-- master::valid_object(ob) for a blueprint of that name that load_object is about to create (`none`: the master has no
+      opinion - nothing is logged, the load goes on) -/
+  vo : Nat → String → Option Ans := fun _ _ => none
 
 inductive Err where
-  | noEuidLoad | noEuidClone | exportZero | badArg | policy | simulDest | bindDenied
+  | noEuidLoad | noEuidClone | exportZero | badArg | policy | simulDest | bindDenied | voDenied
   deriving Repr, BEq, DecidableEq
 
 inductive Res where
@@ -184,6 +193,8 @@ structure StepRec where
   vsnap : List Oid := []        -- ids whose object is virtual (virtualp) at the snapshot
   vb : Option (Oid × Oid × Ans) := none    -- master::valid_bind was asked (doer = old owner, new owner, verdict)
   bindTo : Option Oid := none   -- this segment starts a bind(): the function will run as that object
+  vo : Option (String × Ans) := none      -- master::valid_object was asked about the blueprint of that name
+  fpOwner : Option Oid := none  -- this segment ends a via / bind op: its result is geteuid(function) of a function owned by that object
   deriving Repr, BEq, DecidableEq
 
 /-! registry: association list keyed by `oid` -/
@@ -308,6 +319,7 @@ def doLoad (cfg : Cfg) (pol : Policy) (i : Nat) (w : World) (A : Obj) (p : Path)
 def clonePre (w : World) (A : Obj) (newOid : Oid) (p : Path) : Option Res :=
   if newOid ∈ reservedOids ∨ getO w.objs newOid ≠ none then some .nobj
   else if p.name ∉ w.loaded ∧ getO w.objs p.oid ≠ none then some .nobj
+  else if p.name ∉ w.loaded ∧ p.parent ≠ none then some .nobj      -- harness: inheriting blueprints are loaded, not cloned unloaded
   else if A.oid ≠ masterOid ∧ A.euid = none then some (.err .noEuidClone)
   else none
 
@@ -342,10 +354,9 @@ def doReload (w : World) (t : Oid) : World × List Creation × Option (Oid × Na
   match getO w.objs t with
   | none => (w, [], none, .nobj)
   | some T =>
-    if t = masterOid then (w, [], none, .nobj)
-    else
-      let o : Obj := { T with euid := none }
-      ({ w with objs := setO w.objs o }, [{ name := w.nameOf T, ans := none, made := some o }], none, .int 1)
+    -- (also of the master object: reload_object(master()) is open to everybody and resets the master's euid)
+    let o : Obj := { T with euid := none }
+    ({ w with objs := setO w.objs o }, [{ name := w.nameOf T, ans := none, made := some o }], none, .int 1)
 
 /-- one segment record: what happened between two uid snapshots, in the context (actor, op) of the innermost
     running op; closed by the snapshot of every registered object (getuid on each) -/
@@ -445,20 +456,52 @@ def needsCompile (w : World) (A : Obj) (p : Path) : Bool :=
   decide (¬ ((p.name ∉ w.loaded ∨ p.name ∈ w.half) ∧ getO w.objs p.oid ≠ none) ∧ p.name ∉ w.loaded ∧
     ¬ (A.oid ≠ masterOid ∧ A.euid = none) ∧ p.exists = false)
 
+/-- load_object, once the new blueprint is in the object table (default uid "NONAME"): master valid_object(ob) through the
+    non-catching apply.  An error in it unwinds out of load_object and leaves the loaded, never created object behind
+    (`half`, like an error in creator_file); a refusing verdict (`mret && !MASTER_APPROVED(mret)`) destructs the object again
+    and raises the error; an approving one lets the load go on (`k`) - the verification master closes the segment with a
+    snapshot then.  `active`: the op really reaches this point. -/
+def withVo (pol : Policy) (i : Nat) (active : Bool) (w : World) (a : Oid) (op : Op) (first : Bool) (name : String)
+    (k : Bool → World × List StepRec) : World × List StepRec :=
+  match (if active then pol.vo i name else none) with
+  | none => k first
+  | some v =>
+    if v = .err then
+      let w1 : World := { w with loaded := name :: w.loaded, half := name :: w.half }
+      (w1, [{ seg w1 a op none [] (some (.err .policy)) first with vo := some (name, v) }])
+    else if v.approved = false then
+      (w, [{ seg w a op none [] (some (.err .voDenied)) first with vo := some (name, v) }])
+    else
+      let r := k false
+      (r.1, { seg w a op none [] none first with vo := some (name, v) } :: r.2)
+
 /-- load_object reaches creator_file: not found in the object table, euid test passed, the file exists -/
 def loadCreates (w : World) (A : Obj) (p : Path) : Bool :=
   decide (¬ ((p.name ∉ w.loaded ∨ p.name ∈ w.half) ∧ getO w.objs p.oid ≠ none) ∧ p.name ∉ w.loaded ∧
     ¬ (A.oid ≠ masterOid ∧ A.euid = none) ∧ p.exists = true)
 
-/-- load_object of an ordinary (non virtual) path from world `w` -/
-def execLoadCore (cfg : Cfg) (pol : Policy) (i : Nat) (sub : Sub) (w : World) (a : Oid) (A : Obj) (p : Path)
-    (first : Bool) : World × List StepRec :=
+/-- load_object of an ordinary (non virtual) path `p` from world `w`, as part of the op `op` (the load op itself, or the load of
+    the file that inherits `p`).  `k = some ..`: the nested load_object of an inherited file - after its create() the caller
+    goes on (`k`) instead of returning a result -/
+def execLoadCore (cfg : Cfg) (pol : Policy) (i : Nat) (sub : Sub) (w : World) (a : Oid) (A : Obj) (p : Path) (op : Op)
+    (first : Bool) (k : Option (World → World × List StepRec)) : World × List StepRec :=
   let x := doLoad cfg pol i w A p
   match createdNow x.2.1 with
-  | none => singleF a (.load p) x first
+  | none => singleF a op x first
   | some o =>
     let y := sub x.1 o.oid p.name
-    (y.1, seg x.1 a (.load p) none x.2.1 none first :: y.2 ++ [seg y.1 a (.load p) none [] (some x.2.2.2) false])
+    match k with
+    | none => (y.1, seg x.1 a op none x.2.1 none first :: y.2 ++ [seg y.1 a op none [] (some x.2.2.2) false])
+    | some k =>
+      let z := k y.1
+      (z.1, seg x.1 a op none x.2.1 none first :: y.2 ++ z.2)
+
+/-- valid_object, creator_file (with the master's callback), creation and create() script of blueprint `p` -/
+def loadPlain (cfg : Cfg) (pol : Policy) (i : Nat) (run : Run) (sub : Sub) (w : World) (a : Oid) (A : Obj) (p : Path) (op : Op)
+    (first : Bool) (k : Option (World → World × List StepRec)) : World × List StepRec :=
+  withVo pol i (loadCreates w A p) w a op first p.name fun f0 =>
+    withCfPre pol i run (loadCreates w A p) w a op f0 p.name
+      (fun W A2 f => execLoadCore cfg pol i sub W a A2 p op f k)
 
 def execLoad (cfg : Cfg) (pol : Policy) (i : Nat) (run : Run) (sub : Sub) (w : World) (a : Oid) (A : Obj) (p : Path) :
     World × List StepRec :=
@@ -466,8 +509,17 @@ def execLoad (cfg : Cfg) (pol : Policy) (i : Nat) (run : Run) (sub : Sub) (w : W
     let v := virtCore pol i run w a (.load p) true p false
     (v.1, v.2.1 ++ [seg v.1 a (.load p) none [] (some v.2.2.res) v.2.1.isEmpty])
   else
-    withCfPre pol i run (loadCreates w A p) w a (.load p) true p.name
-      (fun W A2 f => execLoadCore cfg pol i sub W a A2 p f)
+    match p.parent with
+    | some q =>
+      if loadCreates w A p = true ∧ q.name ∉ w.loaded then
+        -- compiling `p` finds the program it inherits missing: load_object(q) for the SAME current_object (its own euid test,
+        -- valid_object, creator_file, create()), then load_object(p) starts again from the top (test repeated)
+        loadPlain cfg pol i run sub w a A q (.load p) true (some fun W =>
+          match getO W.objs a with
+          | none => (W, [seg W a (.load p) none [] (some .nobj) false])
+          | some A' => loadPlain cfg pol i run sub W a A' p (.load p) false none)
+      else loadPlain cfg pol i run sub w a A p (.load p) true none
+    | none => loadPlain cfg pol i run sub w a A p (.load p) true none
 
 /-- second half of clone_object from world `w` (after the blueprint's create() script): the clone is made by the
     same object `A'` with the uids it has now, then the clone's create() script runs -/
@@ -526,7 +578,8 @@ def execClone (cfg : Cfg) (pol : Policy) (i : Nat) (run : Run) (sub : Sub) (w : 
         (t.1, v.2.1 ++ t.2)
       | out => (v.1, v.2.1 ++ [seg v.1 a op none [] (some out.res) v.2.1.isEmpty])
     else
-      withCfPre pol i run true w a op true p.name (fun W A2 f => cloneBlueprint cfg pol i run sub W a A2 newOid p f)
+      withVo pol i true w a op true p.name fun f0 =>
+        withCfPre pol i run true w a op f0 p.name (fun W A2 f => cloneBlueprint cfg pol i run sub W a A2 newOid p f)
 
 def execReload (sub : Sub) (w : World) (a : Oid) (t : Oid) : World × List StepRec :=
   let x := doReload w t
@@ -544,6 +597,14 @@ def reloadRefused (pol : Policy) (i : Nat) (w : World) (t : Oid) : Bool :=
   match getO w.objs t with
   | some T => !(pol.script i (scriptKey (w.nameOf T))).isEmpty
   | none => false
+
+/-- geteuid(function): the euid of the function's owner, as the harness prints it -/
+def fpEuid (S : List Obj) (t : Oid) : Res :=
+  match getO S t with
+  | some T' => (match T'.euid with
+    | some n => .oid ("s:" ++ n)
+    | none => .int 0)
+  | none => .int 0
 
 /-- efun pointers the harness binds: load_object / clone_object -/
 def bindable : Op → Bool
@@ -575,12 +636,8 @@ def execWith (cfg : Cfg) (pol : Policy) (i : Nat) (run : Run) (sub : Sub) (neste
       | none => (w, [seg w a op none [] (some .nobj) true])
       | some _ =>
         let y := run w t op'
-        let res : Res := match getO y.1.objs t with
-          | some T' => (match T'.euid with
-            | some n => .oid ("s:" ++ n)
-            | none => .int 0)
-          | none => .int 0
-        (y.1, seg w a op none [] none true :: y.2 ++ [seg y.1 a op none [] (some res) false])
+        (y.1, seg w a op none [] none true :: y.2 ++
+          [{ seg y.1 a op none [] (some (fpEuid y.1.objs t)) false with fpOwner := some t }])
     | .bind t op' =>
       -- lib/lpc/operator.c f_bind: same owner = nothing to do (the master is not asked); otherwise master
       -- valid_bind(doer, old owner, new owner) through the NON-catching apply, refusal iff !MASTER_APPROVED = error;
@@ -601,13 +658,8 @@ def execWith (cfg : Cfg) (pol : Policy) (i : Nat) (run : Run) (sub : Sub) (neste
             (w, [{ seg w a op none [] (some (.err .bindDenied)) true with vb := asked, bindTo := none }])
           else
             let y := run w t op'
-            let res : Res := match getO y.1.objs t with
-              | some T' => (match T'.euid with
-                | some n => .oid ("s:" ++ n)
-                | none => .int 0)
-              | none => .int 0
             (y.1, { seg w a op none [] none true with vb := asked, bindTo := some t } :: y.2 ++
-              [seg y.1 a op none [] (some res) false])
+              [{ seg y.1 a op none [] (some (fpEuid y.1.objs t)) false with fpOwner := some t }])
 
 def runScript (f : Run) (w : World) (o : Oid) : List Op → World × List StepRec
   | [] => (w, [])
